@@ -183,6 +183,12 @@ def evaluate(ctx, job, meta, res):
         only_str = all(isinstance(a, str) and isinstance(b, str) for _, a, b in leaves)
         # the patched string (before or after) contains one of the separators the two languages treat differently
         exo = only_str and all(any(c in (a + b + base_at(p)) for c in EXOTIC) for p, a, b in leaves)
+        if only_str and not exo and 'neutral' in meta:
+            # list indices shift when items are inserted or removed, and a removed line takes its separator with it: the
+            # separator need not be visible at the differing path; any exotic separator in the payload makes the case a
+            # candidate, the neutralised re-run below decides
+            blob = json.dumps(base, ensure_ascii=False) + json.dumps(data['payload'], ensure_ascii=False)
+            exo = any(c in blob for c in EXOTIC)
         if exo and 'neutral' in meta:
             # decided, not assumed: with the separators neutralised in the inputs the two sides must agree
             exo = neutralised_agrees(kind, meta)
@@ -342,6 +348,46 @@ def run(ctx):
         elif 'domain' in m:
             ctx.count('theorem-domain:ts_patch_eq-outside (exotic separator / ill-formed variant)')
     ctx.cov['correspondence_mismatches'] += len(pm)
+    # the Lean model of the browser-side applier (Ts.applyDecisions: resolveAction, splitDiffStringPath, pushPath, the action
+    # check of the MergeDecision constructor; no combine_patches) against the real TypeScript, on every (base, decisions)
+    # payload and on variants with another action / a missing diff
+    from checks import c09
+    ajobs = [(j['base'], j['decisions']) for j in jobs if j['kind'] == 'apply']
+    ares = [r for j, r in zip(jobs, results[:len(jobs)]) if j['kind'] == 'apply']
+    variants = []
+    for base_, ds_ in ajobs[:60]:
+        if not ds_:
+            continue
+        v = copy.deepcopy(ds_)
+        d_ = rng.choice(v)
+        how = rng.choice(['action', 'action', 'nodiff', 'drop'])
+        if how == 'action':
+            d_['action'] = rng.choice(['base', 'local', 'remote', 'either', 'local_then_remote', 'remote_then_local', 'clear_parent', 'clear', 'custom'])
+        elif how == 'nodiff':
+            d_[rng.choice(['local_diff', 'remote_diff'])] = None
+        else:
+            v.remove(d_)
+        variants.append((base_, v))
+    vres = run_ts([{'kind': 'apply', 'base': b_, 'decisions': d_} for b_, d_ in variants]) if variants else []
+    alla, allar = ajobs + variants, ares + vres
+    amodel = vlib.Driver().run([{'cmd': 'tsapply', 'base': enc(b_), 'decisions': c09.enc_decisions(d_)} for b_, d_ in alla]) if alla else []
+    am = []
+    for i, ((b_, d_), res, m) in enumerate(zip(alla, allar, amodel)):
+        ts = m.get('ts', {})
+        ctx.cov['traces_validated_against_impl'] += 1
+        if 'ok' not in ts and ts.get('what') == 'unmodelled':
+            ctx.count('ts-apply-model:outside the model')
+            continue
+        ctx.count('ts-apply-model:' + ('ok' if res['ok'] else 'rejects') + (':variant' if i >= len(ajobs) else ''))
+        if res['ok'] != ('ok' in ts) or (res['ok'] and canon(res['value']) != canon(dec(ts['ok']))):
+            am.append({'base': enc(b_), 'decisions': d_, 'ts': json.dumps(res)[:300], 'model': json.dumps(ts)[:300]})
+        py = m.get('py', {})
+        if 'ok' in ts and 'ok' in py:
+            ctx.count('ts-apply-model:both appliers succeed' + (' and agree' if json.dumps(ts['ok'], sort_keys=True) == json.dumps(py['ok'], sort_keys=True) else ' and differ'))
+    ctx.cov['correspondence_mismatches'] += len(am)
+    if am and not ctx.violations:
+        ctx.violation('correspondence Ts.applyDecisions model <-> real TypeScript applyDecisions broken (%d); first: %s' % (len(am), json.dumps(am[0])[:600]),
+                      {'kind': 'correspondence', 'stream': 'C15 tsapply', 'first': am[0]}, found=False, classify=False)
     if pm and not ctx.violations:
         ctx.violation('correspondence Ts.patch model <-> real TypeScript patch broken (%d); first: %s' % (len(pm), json.dumps(pm[0])[:400]),
                       {'kind': 'correspondence', 'stream': 'C15 tspatch', 'first': pm[0], 'theorems': TS_PATCH_THEOREMS}, found=False, classify=False)
